@@ -48,11 +48,15 @@ SHAPES = ["", ", with shape SpheroidShape()", ", with shape ConeShape()",
 def programs(draw):
     nleaves = draw(st.integers(2, 7))
     leaves = []
+    # behaviour-heavy programs: several module-level random values referenced only from the
+    # bodies of behaviours / monitors (sampled as dependencies of the behaviour namespaces)
+    heavy = draw(st.integers(0, 3)) == 0
     for i in range(nleaves):
         kind = draw(st.sampled_from(["range", "range", "normal", "uniform", "drange", "dep"]))
         lo = draw(st.integers(-5, 5))
         w = draw(st.integers(1, 6))
-        usage = draw(st.sampled_from(["req", "req", "req", "param", "beh", "mon", "obj"]))
+        usage = draw(st.sampled_from(["beh", "beh", "beh", "mon", "mon", "req", "param"] if heavy else
+                                     ["req", "req", "req", "param", "beh", "mon", "obj"]))
         leaves.append({"kind": kind if i else "range", "lo": lo, "w": w, "usage": usage})
     nreq = draw(st.integers(0, 4))
     reqs = []
@@ -72,7 +76,7 @@ def programs(draw):
     objs = [{"shape": draw(st.integers(0, len(SHAPES) - 1)),
              "visible": draw(st.booleans()),
              "spread": draw(st.integers(2, 12))} for _ in range(nobj)]
-    dyn = draw(st.booleans())
+    dyn = draw(st.booleans()) or heavy
     ring = draw(st.integers(0, 3)) == 0
     return {
         "ring": ring,
@@ -117,7 +121,13 @@ def emit(p):
         L.append(RING)
     leaves = p["leaves"]
     for i, l in enumerate(leaves):
-        L.append(f"x{i} = {leaf_src(i, l, leaves)}")
+        if p.get("modular") and l["usage"] in ("beh", "mon"):
+            # behaviours are defined at top level and cannot see the locals of a setup block:
+            # the values they use stay module-level (marked, see the split below)
+            src = leaf_src(i, dict(l, kind="range") if l["kind"] == "dep" else l, leaves)
+            L.append(f"import_free_global = 0; x{i} = {src}")
+        else:
+            L.append(f"x{i} = {leaf_src(i, l, leaves)}")
     pnames = [f"x{i}" for i, l in enumerate(leaves) if l["usage"] == "param"]
     for j, n in enumerate(pnames):
         L.append(f"param p{j} = {n}")
@@ -168,7 +178,9 @@ monitor M():
         # scenario locals (snapshotted for requirements); definitions stay at top level
         head, body = [], []
         for item in L:
-            if item.startswith(("behavior ", "monitor ", "import ", "def ")):
+            if item.startswith("import_free_global = 0; "):
+                head.insert(0, item.split("; ", 1)[1])
+            elif item.startswith(("behavior ", "monitor ", "import ", "def ")):
                 head.append(item)
             elif item.startswith("param "):
                 continue  # params are top-level only; the value stays reachable through foo
@@ -189,6 +201,8 @@ def features(p):
     f.append(f"hidden-leaves:{min(hidden, 4)}")
     if sum(u == "req" for u in uses) >= 2:
         f.append("req-only>=2")
+    if p["dynamic"] and sum(u in ("beh", "mon") for u in uses) >= 2:
+        f.append("behaviour-only>=2")
     if any(r["soft"] is not None for r in p["reqs"]):
         f.append("soft")
     if any(r["closure"] for r in p["reqs"]):
